@@ -23,6 +23,10 @@ CHECKS = {
   text="Contract oracle over generated command lines and inputs: all invalid option combinations (enumerated) must be rejected with non-zero exit, empty stdout and no file created; unreadable/unrecognisable inputs exit non-zero without crashing; for processed inputs (clean / erroneous / mid-stream fatal, five modes, -E n, custom checks) exit = n iff anything was reported, total_errors = listed + custom = messages shown, and -m / -w / -e change only what is displayed (-w exactness checked with codes that are prefixes and extensions of present codes).",
   note="Trusted base: stderr/stats/report parsers of the harness; the exit-status oracle relates observables of the same run, with the classes clean / wrong custom check known by construction.",
   technique="property-based testing: reference contract + metamorphic relations between runs with and without display options"),
+ "C17": dict(
+  text="Fault-schedule injection on the real CLI: SIGINT/SIGTERM at delays drawn over the measured run time, stdout closed after N bytes, error cap, mid-stream fatal error; crossed with modes, file/pipe input, schedule perturbation (slow validator / collector / writer so that the bounded queues fill) and input sizes up to 8 MB. Oracle: the process exits by itself within the watchdog with all threads joined, no panic, no terminating signal, exit in {0,1,n}; a partial output file is a whole-packet prefix of the expected filtered output. The fraction of stops that provably landed mid-run is measured.",
+  note="Trusted base: watchdog rule (3 reproductions), perturbation hook; timing is sampled not enumerated. A signal delivered before the tool installed its handler terminates the process by default disposition and is excluded (counted).",
+  technique="property-based testing with fault injection (signals, closed pipes, error cap, fatal input) and schedule perturbation; validity oracle on the process outcome and on partial output"),
  "C18": dict(
   text="Differential truncation testing: generated (conforming and corrupted) multi-link streams are cut at structure-derived and random positions (thorough: every byte position of small streams); the truncated run must terminate normally and its findings (error messages / view rows) for all complete packets before the cut must equal those of the untruncated run; check and view modes, file and pipe, with and without filter.",
   note="Trusted base: the untruncated run is the reference; runs whose full input triggers a FATAL stop are excluded (stop point is schedule dependent by design) and counted.",
